@@ -40,7 +40,7 @@ CHECKS = {
         level="model_checking", engine="seq",
         technique="total enumeration of operation kind x source database x mapping shape x entry order through the real ChannelWriter against a reference mapping function",
         text="Every operation kind (18 op messages, 4 API events, 5 DML kinds, the 3 readiness probes they trigger) is pushed through the real ChannelWriter for every source database, mapping shape, insertion order of mapping entries and downstream answer; every call recorded at the fake DataHandler is compared with the reference mapping (routing database, request db/collection fields) and the writer's bookkeeping keys with source-name keys.",
-        note="Finite input space enumerated completely. sync.Map iteration order is random and outside the harness' control: multi-entry mappings are repeated 24x (200x thorough) under every insertion order and all repetitions must agree. RBAC entity fields are C20's business.",
+        note="Finite input space enumerated completely. sync.Map iteration order is random and outside the harness' control: multi-entry mappings are repeated 24x (200x thorough) under every insertion order and all repetitions must agree. RBAC entity fields are C20's business. Two parts go below the DataHandler interface with the real SDK client against an in-process gRPC Milvus: 'handler' (23 operation kinds x 4 routing databases: dbname header and names of every RPC on the wire) and 'targetcalls' (collection / partition lookups of the real TargetClient under plain and chained mapping tables: the mapping is applied exactly once).",
         parts=[part("names", "core", "writer", "TestVerifC09Names", shards=(8, 16), budget=(150, 900)),
                part("target", "core", "reader", "TestVerifC09Target"),
                part("targetcalls", "core", "reader", "TestVerifC09TargetCalls", shards=(4, 8), budget=(150, 600)),
@@ -50,7 +50,7 @@ CHECKS = {
         level="model_checking", engine="seq",
         technique="total enumeration of per-kind field-domain products and malformed packs through the real ChannelWriter, deep comparison with an independent reference builder",
         text="For every supported operation message kind and API event the product of small field domains is pushed through the real ChannelWriter; the one request recorded at the fake DataHandler is deep-compared with an independently built expectation (same identity fields, dropped list members removed, schema/shards/consistency/properties for create collection, replication flag, source timestamp); malformed packs must be rejected with no downstream call.",
-        note="Finite alphabet enumerated completely (about 3k cases); field contents outside the alphabets are not covered. Event timestamps produced by the reader (create time / barrier time) are checked in the C04 pipeline harness.",
+        note="Finite alphabet enumerated completely (about 3k cases); field contents outside the alphabets are not covered. Event timestamps produced by the reader (create time / barrier time) are checked in the C04 pipeline harness. The handler part checks the wire request of the real MilvusDataHandler + SDK client (identity fields, exactly one mutating RPC, replication mark and source timestamp); the kinds for which the pinned SDK cannot carry the mark are recorded known findings.",
         parts=[part("requests", "core", "writer", "TestVerifC20Requests", shards=(4, 8), budget=(150, 900)),
                part("handler", "core", "writer", "TestVerifC20Handler", shards=(4, 8), budget=(150, 600))],
     ),
@@ -58,7 +58,7 @@ CHECKS = {
         level="model_checking", engine="seq+sched",
         technique="total enumeration of pack shapes x configurations through the real HandleReplicateMessage; bytes decoded with Milvus' own decoder and compared with the pack",
         text="Every pack of up to 3 (4 thorough) messages over the six message kinds, for every replicate-id / name-mapping / downstream-answer configuration, is sent through the real ChannelWriter and replicate message manager; the serialized messages captured at the fake DataHandler are decoded exactly as the Milvus proxy does (MsgHeader -> type -> ProtoUnmarshalDispatcher) and compared field by field with a pristine copy of the pack, together with the call envelope, the returned checkpoints and the error.",
-        note="Field values come from builders (2 rows, int64 pks, one partition name); concurrent calls on different channels are explored by the sched part. The fake answers with a synthetic target position.",
+        note="Field values come from builders (2 rows, int64 pks, one partition name); concurrent calls on different channels are explored by the sched part. The fake answers with a synthetic target position. The handler part drives the real MilvusDataHandler + SDK client against an in-process gRPC Milvus (loopback): downstream answer {ok, error status, transport error, unreachable} x pooled client {cached, evicted}; envelope equality on the wire, position handed back, an error is never swallowed.",
         parts=[part("bytes", "core", "writer", "TestVerifC07Bytes", shards=(8, 16), budget=(150, 900)),
                part("sched", "core", "writer", "TestVerifC07Sched", shards=(4, 8), budget=(120, 600), gomaxprocs=1),
                part("handler", "core", "writer", "TestVerifC07Handler", shards=(8, 8), budget=(150, 600))],
